@@ -282,6 +282,17 @@ func (vc *VC) gcIntrinsic(fr *Frame, fn *ssa.Function, args []SV) ([]SV, bool) {
 			out.L[j] = ite(args[0].L[0], args[1].L[j], args[2].L[j])
 		}
 		return []SV{out}, true
+	case "gcAllocated":
+		// every reference inside the value was allocated no later than the state of evaluation
+		var cs []string
+		for j, li := range vc.eng.layoutOf(fn.Params[0].Type()).L {
+			if li.Kind == kRef && j < len(args[0].L) {
+				cs = append(cs, "(<= "+args[0].L[j]+" "+vc.st.Alloc+")")
+			}
+		}
+		return []SV{scalar(and(cs...))}, true
+	case "gcSameArray":
+		return []SV{scalar(eq(args[0].L[0], args[1].L[0]))}, true
 	case "gcImplies":
 		return []SV{scalar(implies(args[0].L[0], args[1].L[0]))}, true
 	case "gcForall", "gcExists":
